@@ -32,6 +32,7 @@ type kase struct {
 	roots  []*tg.Node // schema i's root node
 	names  []string   // schema i's file name
 	self   []bool
+	opts   []bool // schema i's OBJECT is created with jschema.KeysAreOptionalByDefault()
 }
 
 func mkCase(no int, g *tg.Graph) *kase {
@@ -39,10 +40,12 @@ func mkCase(no int, g *tg.Graph) *kase {
 	k.roots = append(k.roots, g.Root)
 	k.names = append(k.names, "root")
 	k.self = append(k.self, false)
+	k.opts = append(k.opts, g.RootOpt)
 	for _, t := range g.Types {
 		k.roots = append(k.roots, t.Body)
 		k.names = append(k.names, t.Name)
 		k.self = append(k.self, true)
+		k.opts = append(k.opts, t.Opt)
 	}
 	return k
 }
@@ -170,23 +173,24 @@ func classify(s string) (class, name string) {
 func isRecursionClass(c string) bool { return c == "E104" || c == "E1303" }
 
 // requiredCycle: is there a cycle through ≥ 2 distinct types along references in required positions
-// (not below an optional property, not inside an array; or-members, {type}, {or}, allOf parents and
-// key-shortcut types count; additionalProperties does not)? Alias cycles are cycles of this graph.
+// (not below an optional property — optional by its rule or, unmarked, by the option of the type's OWN object —, not
+// inside an array; or-members, {type}, {or}, allOf parents and key-shortcut types count; additionalProperties does
+// not)? Alias cycles are cycles of this graph.
 func requiredCycle(g *tg.Graph) bool {
 	edges := map[string][]string{}
-	var collect func(from string, n *tg.Node)
-	collect = func(from string, n *tg.Node) {
+	var collect func(from string, n *tg.Node, opt bool)
+	collect = func(from string, n *tg.Node, opt bool) {
 		m := *n
 		m.AddProps = "" // additionalProperties demands nothing
 		edges[from] = append(edges[from], m.NodeRefs()...)
 		for _, p := range n.Props {
-			if !p.Val.Optional {
-				collect(from, p.Val)
+			if !tg.PropOptional(p.Val, opt) {
+				collect(from, p.Val, opt)
 			}
 		}
 	}
 	for _, t := range g.Types {
-		collect(t.Name, t.Body)
+		collect(t.Name, t.Body, t.Opt)
 	}
 	// reach[a][b]: path of length ≥ 1
 	reach := func(a string) map[string]bool {
@@ -323,19 +327,31 @@ func features(g *tg.Graph, rep *vh.Report) (edges int) {
 	return edges
 }
 
+// optArg: how the option of one schema object shows in the replay text.
+func optArg(opt bool) string {
+	if opt {
+		return ", jschema.KeysAreOptionalByDefault()"
+	}
+	return ""
+}
+
 func replay(k *kase, i int) string {
 	var sb strings.Builder
-	fmt.Fprintf(&sb, "schema under Check: jschema.New(%q, text) with text =\n%s\n", k.names[i], k.roots[i].Text())
+	fmt.Fprintf(&sb, "schema under Check: jschema.New(%q, text%s) with text =\n%s\n", k.names[i], optArg(k.opts[i]), k.roots[i].Text())
 	if k.linked {
 		sb.WriteString("LINKED universe: one jschema.New(name, text) per type, every type AddType'd to every type (itself included) and to the schema under Check\n")
 	}
-	sb.WriteString("AddType (fresh jschema.New(name, text) each")
+	sb.WriteString("AddType (fresh jschema.New(name, text) each; [opt] = that object is created with jschema.KeysAreOptionalByDefault(), the others without")
 	if k.self[i] {
 		sb.WriteString("; " + k.names[i] + " = the schema itself")
 	}
 	sb.WriteString("):")
 	for _, t := range k.g.Types {
-		sb.WriteString("\n" + t.Name + " = " + t.Body.Text())
+		o := ""
+		if t.Opt {
+			o = " [opt]"
+		}
+		sb.WriteString("\n" + t.Name + o + " = " + t.Body.Text())
 	}
 	return sb.String()
 }
@@ -363,7 +379,7 @@ func Run(args []string) {
 			}
 		}
 	}
-	rep := vh.NewReport(command, "type graphs: property NAMES: every second graph has 30..100 % of its property names (on required, optional and array edges alike) replaced by quoted names that look like user type names (JSON-LD @graph, the graph's own / missing type names, the key shortcuts of the same object), comment / annotation openers, rule and type keywords, quotes, escapes (\\u0040t0), structural characters, the empty name (stats keyname_*); quick = 10k random graphs over 1..6 user types + up to 2 MISSING names + 8k dense graphs (3..4 types: two/three-reference objects, aliases, or-lists) + 4k key-shortcut graphs (key types = string literals / aliases / or-lists over shared targets); every 2nd/3rd case LINKED (every type object has every type added too), the others with plain type objects; bodies object/array/alias/or-shortcut/literal with {type}/{or}, properties required/optional/nullable, array items, key shortcuts, allOf (string and list), additionalProperties; thorough adds the bounded-exhaustive one-template-per-type family, every sixth graph of it a second time with all names from the pool (19 one-reference templates x all targets: every graph over 1 and 2 types incl. a missing target and both member orders, 14 templates over 3 types, 6 templates {leaf, required, optional, array item, or-shortcut alias, alias} over 4 types). Each graph is compiled as root schema + every type as its own root. nontrivial = at least one type body references a type")
+	rep := vh.NewReport(command, "type graphs: property NAMES: every second graph has 30..100 % of its property names (on required, optional and array edges alike) replaced by quoted names that look like user type names (JSON-LD @graph, the graph's own / missing type names, the key shortcuts of the same object), comment / annotation openers, rule and type keywords, quotes, escapes (\\u0040t0), structural characters, the empty name (stats keyname_*); quick = 10k random graphs over 1..6 user types + up to 2 MISSING names + 8k dense graphs (3..4 types: two/three-reference objects, aliases, or-lists) + 4k key-shortcut graphs (key types = string literals / aliases / or-lists over shared targets); every 2nd/3rd case LINKED (every type object has every type added too), the others with plain type objects; bodies object/array/alias/or-shortcut/literal with {type}/{or}, properties unmarked / optional: true / optional: false / nullable, array items, key shortcuts, allOf (string and list), additionalProperties; the option jschema.KeysAreOptionalByDefault() is drawn per schema OBJECT (root and every added type independently: 2 graphs in 8 all plain, 1 in 8 all with the option, 5 in 8 independent), so unmarked keys carry chains of required references in plain objects and break them in objects with the option; required = read with the option of the object whose text holds the property; besides the graph-level verdict (some Check among root + every type as its own root fails iff the graph is illegal) every schema whose OWN root has no finite value along the references its Check can follow must be rejected by its own Check (C09-false-accept-schema); false rejects are judged on graphs legal under both readings of unmarked keys (CheckRecursion ignores the option: calibration stat legal_only_by_default_optional_rejected); thorough adds the bounded-exhaustive one-template-per-type family, every sixth graph of it a second time with all names from the pool (20 one-reference templates x all targets: every graph over 1 and 2 types incl. a missing target and both member orders, 14 templates over 3 types, 6 templates {leaf, required, optional, array item, or-shortcut alias, alias} over 4 types; and 12 / 12 / 6 templates over 1 / 2 / 3 types under EVERY setting of the option over root and types). Each graph is compiled as root schema + every type as its own root. nontrivial = at least one type body references a type")
 	seed := vh.Seed()
 	workers := runtime.NumCPU()
 	if workers > 16 {
@@ -380,10 +396,11 @@ func Run(args []string) {
 		k.linked = linkedNext
 		req := &tg.Req{ID: k.no, Example: true, Linked: k.linked}
 		for i := range k.roots {
-			req.Schemas = append(req.Schemas, tg.SchemaReq{Name: k.names[i], Text: k.roots[i].Text(), SelfAdd: k.self[i]})
+			req.Schemas = append(req.Schemas, tg.SchemaReq{Name: k.names[i], Text: k.roots[i].Text(), SelfAdd: k.self[i], Opt: k.opts[i]})
 		}
 		for _, t := range g.Types {
 			req.Types = append(req.Types, [2]string{t.Name, t.Body.Text()})
+			req.TypeOpts = append(req.TypeOpts, t.Opt)
 		}
 		req.Docs = []string{"{}", "[]", "1", instance(g, g.Root, 4, r), instance(g, g.Root, 6, r)}
 		if len(g.Types) > 0 {
@@ -436,6 +453,24 @@ func Run(args []string) {
 			family(2, true, allTemplates(), []int{3, 8, 14, 6}, emitBoth(r))
 			family(3, false, []int{0, 1, 3, 4, 5, 6, 7, 8, 9, 11, 12, 13, 16, 18}, []int{3, 14}, emitBoth(r))
 			family(4, false, []int{0, 3, 4, 5, 7, 8}, []int{3}, emitBoth(r))
+			// the same family under EVERY setting of the option over the root and the types (the all-plain setting is the
+			// family above): {leaf, empty object, unmarked / optional: true / optional: false property, array item,
+			// or-shortcut property, or-shortcut alias, alias, allOf, {type} on a property, nullable} over 1 and 2 types,
+			// {leaf, unmarked, optional: true, optional: false, alias, array item} over 3
+			both := emitBoth(r)
+			withOpts := func(g *tg.Graph) {
+				first := true
+				WithOptions(g, func(c *tg.Graph) {
+					if !first {
+						both(c)
+					}
+					first = false
+				})
+			}
+			optTemplates := []int{0, 2, 3, 4, 5, 6, 7, 8, 9, 15, 16, 19}
+			family(1, false, optTemplates, []int{3, 8, 19, 4}, withOpts)
+			family(2, false, optTemplates, []int{3, 8, 19, 6}, withOpts)
+			family(3, false, []int{0, 3, 4, 5, 8, 19}, []int{3, 8}, withOpts)
 		}
 	}()
 
@@ -551,10 +586,23 @@ func evaluate(rep *vh.Report, k *kase, res tg.Res) bool {
 		}
 	}
 
-	// (3) RECURSION: only on graphs without missing types
+	// (3) RECURSION: only on graphs without missing types. Which property is a REQUIRED reference is read per schema
+	// object (tg.PropOptional: an unmarked key follows the option of the object whose text holds it).
 	if !anyMissing {
+		if g.AnyOpt() {
+			rep.Stat("graph_with_KeysAreOptionalByDefault_on_some_object")
+			n := 0
+			for _, o := range k.opts {
+				if o {
+					n++
+				}
+			}
+			if n < len(k.opts) {
+				rep.Stat("graph_with_mixed_option_settings")
+			}
+		}
 		inh := g.InhabitedTypes()
-		legal := tg.Inhabited(g.Root, inh)
+		legal := tg.InhabitedIn(g.Root, inh, g.RootOpt)
 		var dead []string
 		for _, t := range g.Types {
 			if !inh[t.Name] {
@@ -562,10 +610,25 @@ func evaluate(rep *vh.Report, k *kase, res tg.Res) bool {
 				dead = append(dead, t.Name)
 			}
 		}
+		// CALIBRATION (reported, recorded as an observation, not a diff): checker.CheckRecursion never looks at the
+		// option — an unmarked key always counts as a required edge, also inside an object created with
+		// KeysAreOptionalByDefault (`@t = {"x": @t}` with the option on @t is rejected although {} inhabits it). So the
+		// false-REJECT direction is judged only on graphs that are legal under BOTH readings: with every unmarked key
+		// read as required (=> legal per object as well, the per-object reading only removes required edges).
+		legalBoth := legal
+		if legal && g.AnyOpt() {
+			cons := g.InhabitedTypesConservative()
+			legalBoth = tg.InhabitedIn(g.Root, cons, false)
+			for _, t := range g.Types {
+				legalBoth = legalBoth && cons[t.Name]
+			}
+		}
 		switch {
 		case legal:
 			rep.Stat("graph_legal")
-			if recursionReject >= 0 {
+			if recursionReject >= 0 && !legalBoth {
+				rep.Stat("legal_only_by_default_optional_rejected")
+			} else if recursionReject >= 0 {
 				d := vh.Diff{Component: "C09-false-reject", Input: replay(k, recursionReject), Impl: res.Schemas[recursionReject].Check, Model: "root and every type have a finite inhabitant (every cycle passes through an optional property, an array or a terminating or-alternative): Check must not report recursion"}
 				if c, _ := classify(res.Schemas[recursionReject].Check); c == "E1303" && ruleCycle(g) {
 					d.Class = "K-C09-orrule1303"
@@ -574,6 +637,9 @@ func evaluate(rep *vh.Report, k *kase, res tg.Res) bool {
 					rep.Stat("graph_legal_rejected_recursion_UNCLASSIFIED")
 				}
 				addDiff(rep, d)
+			}
+			if !legalBoth {
+				rep.Stat("graph_legal_only_by_default_optional")
 			}
 			if rejected {
 				rep.Stat("graph_legal_rejected_for_other_reason")
@@ -584,7 +650,7 @@ func evaluate(rep *vh.Report, k *kase, res tg.Res) bool {
 			rep.Stat("graph_illegal_rejected")
 		default:
 			cyc := requiredCycle(g)
-			d := vh.Diff{Component: "C09-false-accept", Input: replay(k, 0) + "\n(also each type as its own root: all Check() = nil)", Impl: "every Check() = nil", Model: fmt.Sprintf("uninhabited (no finite value): root inhabited=%v, uninhabited types %v: some Check must fail", tg.Inhabited(g.Root, inh), dead)}
+			d := vh.Diff{Component: "C09-false-accept", Input: replay(k, 0) + "\n(also each type as its own root: all Check() = nil)", Impl: "every Check() = nil", Model: fmt.Sprintf("uninhabited (no finite value): root inhabited=%v, uninhabited types %v: some Check must fail", tg.InhabitedIn(g.Root, inh, g.RootOpt), dead)}
 			if mirrorAccepts && cyc {
 				d.Class = "K-C09-cycle"
 				rep.Stat("graph_illegal_accepted_K-C09-cycle")
@@ -594,8 +660,36 @@ func evaluate(rep *vh.Report, k *kase, res tg.Res) bool {
 			addDiff(rep, d)
 		}
 		// informative: what a caller that only checks the root document schema would see
-		if !tg.Inhabited(g.Root, inh) && res.Schemas[0].Check == "OK" {
+		if !tg.InhabitedIn(g.Root, inh, g.RootOpt) && res.Schemas[0].Check == "OK" {
 			rep.Stat("root_only_usage_uninhabited_root_accepted")
+		}
+
+		// (3b) PER SCHEMA: a schema whose OWN root has no finite value along the references its Check can follow (see
+		// perschema.go) must be rejected by its own Check, whatever the Checks of the other schemas of the graph say.
+		// (When every Check accepts, the graph-level verdict above has already reported the graph.)
+		if rejected {
+			for i, s := range res.Schemas {
+				finite := rootFinite(g, k.names[i], k.roots[i], k.opts[i], k.self[i], k.linked)
+				if k.linked && finite != tg.InhabitedIn(k.roots[i], inh, k.opts[i]) {
+					addDiff(rep, vh.Diff{Component: "C09-harness", Input: replay(k, i), Impl: fmt.Sprintf("path-based expansion: finite=%v", finite), Model: "equals the least fixpoint when every table is complete"})
+				}
+				if finite {
+					continue
+				}
+				rep.Stat("schema_root_without_finite_value")
+				if c, _ := classify(s.Check); c != "OK" {
+					rep.Stat("schema_root_without_finite_value_rejected")
+					continue
+				}
+				d := vh.Diff{Component: "C09-false-accept-schema", Input: replay(k, i), Impl: "Check() = nil", Model: "the root of this schema has no finite value: a chain of required references (each property read with the option of the schema object whose text holds it) returns to a type being expanded on every way through it: this Check must fail"}
+				if p := Predict(g, k.names[i], k.roots[i], k.self[i], k.linked); p.class == "OK" && requiredCycle(g) {
+					d.Class = "K-C09-cycle"
+					rep.Stat("schema_root_without_finite_value_accepted_K-C09-cycle")
+				} else {
+					rep.Stat("schema_root_without_finite_value_accepted_UNCLASSIFIED")
+				}
+				addDiff(rep, d)
+			}
 		}
 	}
 	_ = rejectedBy
